@@ -1,15 +1,15 @@
-CONSTANTS SessCfg <- SessMid
+CONSTANTS SessCfg <- SessSmall
           OneCfg <- SessOneBig
           HeapKind = "near"
-          Alias = TRUE
+          Alias = FALSE
           Forms <- FormsPairs
           MaxSteps = 4
           Gen = TRUE
           Memo = "none"
           AllPairs = TRUE
           Erase = TRUE
-          EditStride = 1
-          SliceStride = 1
+          EditStride = 4
+          SliceStride = 6
 INIT Init
 NEXT Next
 INVARIANT TypeOK
